@@ -73,7 +73,8 @@ def pipe_stream(ck, kind, n, label=None, extra=()):
     """kind: progs | layouts | mutants | parens | static | recfns. `extra`: request lines run first
     (corpus). Returns (requests, corr result)."""
     reqs = list(extra) + ck.gen(FAMILY, ["--kind", kind, "--n", n])
-    res = ck.corr(FAMILY, reqs, label=label or f"pipe-{kind}", timeout=3600)
+    res = ck.corr(FAMILY, reqs, label=label or f"pipe-{kind}", timeout=3600,
+                  model_skip=lambda a: a.startswith(("stage=hang", "stage=abort", "unrun")))
     if not hasattr(ck, "pipe_crashes"):
         ck.pipe_crashes = []
     ck.pipe_crashes.extend((r, a) for r, a in zip(reqs, res["impl_lines"]) if did_not_return(a))
